@@ -31,6 +31,32 @@ pub fn dispatch(k: &str, t: &[&str]) -> Option<String> {
             let pres = match &cb.present { None => "none".to_string(), Some(p) => fmt_vec(p) };
             Some(format!("{} {} {} {}", cb.length, kind, data, pres))
         }
+        "colbuf_pushval" => {
+            use crate::engine::data_types::EncodingType;
+            use crate::mem_store::column::DataSource;
+            let mut cb = ColumnBuffer::default();
+            for tok in t {
+                if *tok == "n" { cb.push_val(RawVal::Null); continue; }
+                let (k, v) = tok.split_at(2);
+                match k {
+                    "i:" => cb.push_val(RawVal::Int(num(v))),
+                    "f:" => cb.push_val(RawVal::Float(OrderedFloat(f64::from_bits(num::<u64>(v))))),
+                    _ => cb.push_val(RawVal::Str(unsafe { String::from_utf8_unchecked(unhex(v)) })),
+                }
+            }
+            let col = cb.finalize("x");
+            let dec = col.decode();
+            let ty = dec.get_type();
+            let (kind, nvals, strs) = match ty {
+                EncodingType::Str | EncodingType::NullableStr => { let v = dec.cast_ref_str(); ("str", v.len().to_string(), if v.is_empty() { "-".to_string() } else { v.iter().map(|s| if s.is_empty() { "_".to_string() } else { hex(s.as_bytes()) }).collect::<Vec<_>>().join(",") }) }
+                EncodingType::I64 | EncodingType::NullableI64 => ("int", dec.len().to_string(), "-".to_string()),
+                EncodingType::F64 | EncodingType::NullableF64 => ("float", dec.len().to_string(), "-".to_string()),
+                EncodingType::Null => ("null", "-".to_string(), "-".to_string()),
+                _ => ("other", "-".to_string(), "-".to_string()),
+            };
+            let pres = if ty.is_nullable() { let p = dec.cast_ref_null_map(); fmt_vec(&p[..std::cmp::min(p.len(), (t.len() + 7) / 8)]) } else { "none".to_string() };
+            Some(format!("{} {} {} {} {}", col.len(), kind, nvals, strs, pres))
+        }
         "intcol_encode" => {
             use crate::mem_store::codec::CodecOp;
             let mut b = IntColBuffer::default();
